@@ -19,9 +19,10 @@
     (6) sync_wellformed, at the level of the serializer: a directory written block by block by the model of
         HTPsync into non-overlapping in-bounds regions re-parses to exactly that directory;
     (7) alloc_disjoint: space handed out at the end of the file never overlaps;
-    (8) datainfo_never_exceeds (any tables, any lookup) and datainfo_exact (elements laid out the way the
-        library lays them out): the model of HLgetdatainfo writes at most info_count entries, returns the true
-        block count for NULL arrays, and reports exactly the extents the format specification defines.
+    (8) datainfo_never_exceeds (any tables, any lookup) and datainfo_exact (any chain of block tables, slots never
+        written included): the model of HLgetdatainfo -- as repaired -- writes at most info_count entries,
+        returns the true block count for NULL arrays, and reports exactly the extents the format specification
+        defines, cut to the caller's capacity.
 
     What rests on the correspondence run only (checks/C02.py): that the files produced by whole histories of
     H / V / SD / GR / AN calls satisfy WellFormed and re-read to the library's own answers (a state-machine model
@@ -163,13 +164,12 @@ Theorem datainfo_never_exceeds : forall blk tables blen total cap ret out,
 Proof. exact hl_getdatainfo_bounded. Qed.
 Print Assumptions datainfo_never_exceeds.
 
-Theorem datainfo_exact : forall blk l blen total first cap,
-  0 < blen -> 0 < first -> layout_ok blk l -> last_table_used l ->
-  lens_ok true (lo_ents l) first blen -> total_ok (lo_ents l) 0 blen total ->
+Theorem datainfo_exact : forall blk pre lastrefs blen total first cap exts,
+  0 <= blen -> 0 <= first -> Forall (fun t => fst t <> 0) pre ->
+  first_ok blk true (List.concat (map snd pre) ++ lastrefs) first blen ->
   cap_ok cap -> cap <> Some 0 ->
-  exists exts,
-    extents_of_slots blk total (block_slots (lo_refs l) 0 first blen true) = Some exts /\
-    hl_getdatainfo blk (lo_tables l) blen total cap = Some (datainfo_answer exts cap).
+  extents_of_slots blk total (block_slots (List.concat (map snd pre) ++ lastrefs) 0 first blen true) = Some exts ->
+  hl_getdatainfo blk (pre ++ [(0, lastrefs)]) blen total cap = Some (datainfo_answer exts cap).
 Proof. exact hl_getdatainfo_exact. Qed.
 Print Assumptions datainfo_exact.
 
@@ -230,22 +230,21 @@ Definition ex_cycle : image := magic ++ INT16ENCODE_bytes 1 ++ INT32ENCODE_bytes
 Example ex_cycle_follow : follow 1 ex_cycle 4 = Some 4 /\ parse_file ex_cycle = None.
 Proof. split; vm_compute; reflexivity. Qed.
 
-(** a linked-block element of 11 bytes: first block 4 bytes, block length 3, tables of 2 slots *)
-Definition ex_layout : layout :=
-  mklayout [(9, [(2, (100, 4)); (3, (110, 3))])] [(5, (120, 3)); (6, (130, 3))] [].
+(** a linked-block element of 14 bytes: first block 4 bytes (made from existing data), block length 3, tables of
+    2 slots, one slot never written (a hole left by seeking) *)
+Definition ex_pre : list (Z * list Z) := [(9, [2; 3])].
+Definition ex_last : list Z := [0; 6].
 Definition ex_blk (r : Z) : option (Z * Z) :=
-  match r with 2 => Some (100, 4) | 3 => Some (110, 3) | 5 => Some (120, 3) | 6 => Some (130, 3) | _ => None end.
-Example ex_layout_hyps :
-  layout_ok ex_blk ex_layout /\ last_table_used ex_layout /\ lens_ok true (lo_ents ex_layout) 4 3 /\
-  total_ok (lo_ents ex_layout) 0 3 11.
+  match r with 2 => Some (100, 4) | 3 => Some (110, 3) | 6 => Some (130, 3) | _ => None end.
+Example ex_datainfo_hyps :
+  Forall (fun t => fst t <> 0) ex_pre /\ first_ok ex_blk true (List.concat (map snd ex_pre) ++ ex_last) 4 3 /\
+  extents_of_slots ex_blk 11 (block_slots (List.concat (map snd ex_pre) ++ ex_last) 0 4 3 true)
+    = Some [(100, 4); (110, 3); (130, 1)].
 Proof.
-  split; [|split; [left; discriminate|split]].
-  - unfold layout_ok, slots_ok; simpl. repeat split; repeat constructor; simpl; try discriminate; reflexivity.
-  - simpl. split; [reflexivity|repeat constructor].
-  - simpl. split; [lia|]. intro H. exfalso. apply H. reflexivity.
+  split; [repeat constructor; discriminate|]. split; [intro; simpl; exists 100; reflexivity | vm_compute; reflexivity].
 Qed.
-Example ex_layout_run :
-  hl_getdatainfo ex_blk (lo_tables ex_layout) 3 11 (Some 3) = Some (3, [(100, 4); (110, 3); (120, 3)]) /\
-  hl_getdatainfo ex_blk (lo_tables ex_layout) 3 11 (Some 9) = Some (4, [(100, 4); (110, 3); (120, 3); (130, 1)]) /\
-  hl_getdatainfo ex_blk (lo_tables ex_layout) 3 11 None = Some (4, []).
+Example ex_datainfo_run :
+  hl_getdatainfo ex_blk (ex_pre ++ [(0, ex_last)]) 3 11 (Some 2) = Some (2, [(100, 4); (110, 3)]) /\
+  hl_getdatainfo ex_blk (ex_pre ++ [(0, ex_last)]) 3 11 (Some 9) = Some (3, [(100, 4); (110, 3); (130, 1)]) /\
+  hl_getdatainfo ex_blk (ex_pre ++ [(0, ex_last)]) 3 11 None = Some (3, []).
 Proof. repeat split; vm_compute; reflexivity. Qed.
